@@ -40,6 +40,10 @@ PROP_MODULES = ["WV.Props.C06"]
 if os.path.exists(os.path.join(os.path.dirname(os.path.dirname(os.path.dirname(os.path.abspath(__file__)))),
                                "lean", "WV", "Props", "C06_Queue.lean")):
     PROP_MODULES.append("WV.Props.C06_Queue")
+# likewise the attach-order theorem (flag `connectConsumer_registers_before_attach`, agents/C06_extract_round8.diff)
+if os.path.exists(os.path.join(os.path.dirname(os.path.dirname(os.path.dirname(os.path.abspath(__file__)))),
+                               "lean", "WV", "Props", "C06_Attach.lean")):
+    PROP_MODULES.append("WV.Props.C06_Attach")
 TRUSTED = ["XSalsa20-Poly1305 (NaCl SecretBox): an interface in Lean whose ideal-AEAD properties are hypotheses "
            "(only the honest sealings open); the harness runs real NaCl against the ideal table on every case",
            "HKDF: injective in CTXinfo (hypothesis); the CTXinfo strings themselves are regenerated from /repo",
@@ -53,7 +57,9 @@ TRUSTED = ["XSalsa20-Poly1305 (NaCl SecretBox): an interface in Lean whose ideal
            "receive_record / connectConsumer / writeToFile / disconnectConsumer / close / pauseProducing / resumeProducing, "
            "as finite scripts; a consumer's write() may call producer.pauseProducing() (flow-controlled consumer); errbacks, "
            "registerProducer / unregisterProducer and progress/hasher hooks are passive (they do not call back into the "
-           "connection); the application does not cancel() a receive_record() Deferred (outside the property's quantifier, "
+           "connection), except that a consumer may call producer.resumeProducing() from registerProducer() and the "
+           "application may resume at top level on a transport that holds bytes while paused and releases them "
+           "synchronously (re-entrant dataReceived is modelled at those two places only); the application does not cancel() a receive_record() Deferred (outside the property's quantifier, "
            "see agents/C06_integration_round7.md)"]
 RULE = ("two real Connections (TransitSender/TransitReceiver owners, real handshake, real NaCl); record lists with sizes "
         "{0,1,15,16,65535,65536,70000}+random, counts <= 12; chunkings all/1-byte/frame-aligned/random/explicit; every "
@@ -98,10 +104,19 @@ def spec_sealed(sender_role, nonce_int, pt):
 
 @implementer(ITransport, IConsumer)
 class Pipe:
+    """in-memory transport.  With `hold` it behaves like a loopback pipe under flow control: while paused it keeps the
+    bytes that arrive, and resumeProducing() hands them to the protocol synchronously, logging (like a reactor) any
+    exception that leaves dataReceived"""
+
     def __init__(self, side):
         self.side = side
         self.written = []
         self.lost = 0
+        self.hold = False
+        self.paused = False
+        self.held = []
+        self.fed = b""      # everything actually handed to dataReceived through this pipe
+        self.excs = []
 
     def write(self, data):
         self.written.append(bytes(data))
@@ -118,10 +133,21 @@ class Pipe:
         pass
 
     def pauseProducing(self):
+        self.paused = True
         self.side.ev.append("pause")
 
     def resumeProducing(self):
+        self.paused = False
         self.side.ev.append("resume")
+        if self.hold:
+            chunks, self.held = self.held, []
+            for ch in chunks:
+                self.fed += ch
+                try:
+                    self.side.conn.dataReceived(ch)
+                except Exception as e:
+                    self.excs.append(type(e).__name__)
+                    self.side.ev.append("!" + type(e).__name__)
 
     def stopProducing(self):
         pass
@@ -143,16 +169,19 @@ class LogConsumer:
     """`fc`: a flow-controlled consumer (IPushProducer contract): it asks its producer to pause from inside every
     write(); somebody resumes the producer on a later turn"""
 
-    def __init__(self, side, fc=False):
+    def __init__(self, side, fc=False, ready=False):
         self.side = side
         self.data = []
         self.fc = fc
+        self.ready = ready      # says "ready" by resuming its producer from registerProducer()
         self.producer = None
 
     def registerProducer(self, producer, streaming):
         assert streaming
         self.producer = producer
         self.side.ev.append("reg")
+        if self.ready:
+            producer.resumeProducing()
 
     def unregisterProducer(self):
         self.side.ev.append("unreg")
@@ -328,7 +357,7 @@ class Side:
                 transit.FileConsumer = orig
             obj = f
         else:
-            obj = LogConsumer(self, fc=(mode == "fc"))
+            obj = LogConsumer(self, fc=(mode == "fc"), ready=(mode == "ready"))
             d = self.conn.connectConsumer(obj, expected)
         rec = dict(obj=obj, d=d, expected=expected, holder=holder, mode=mode, after_lost=getattr(self, "lost_at_id", None) is not None)
         self.consumers.append(rec)
@@ -611,6 +640,9 @@ def run_case(case):
     excs = []          # exception names raised by dataReceived, in order
     fed = b""
     lost_called = False
+    rcv.pipe.hold = bool(case.get("hold"))
+    if rcv.pipe.hold:
+        tags.append("transport:holding")
 
     def app_action(a):
         nonlocal lost_called
@@ -620,6 +652,13 @@ def run_case(case):
             rcv.run_script(a[1])
             do(f"call {rcv_role} {encode_script(a[1])}", rcv)
             tags.extend(script_tags(a[1]))
+        elif k == "resume":          # top-level resumeProducing() on a transport that may hold bytes
+            rcv.run_script([["u"]])
+            do(f"resume {rcv_role}", rcv)
+        elif k == "attachready":     # top-level connectConsumer with a consumer that resumes in registerProducer()
+            rcv.run_script([["c", a[1], "ready", a[2]]])
+            do(f"attachready {rcv_role} {'n' if a[1] is None else a[1]} {encode_script(a[2])}", rcv)
+            tags.extend(script_tags(a[2], 1))
         elif k == "lost":
             if not lost_called:
                 lost_called = True
@@ -669,13 +708,16 @@ def run_case(case):
         chunks = chunks + [extra]      # more bytes after the (manipulated) stream, e.g. a valid-looking tail
     for ci, ch in enumerate(chunks):
         exc = None
-        if not lost_called:
+        if not lost_called and rcv.pipe.hold and rcv.pipe.paused:
+            rcv.pipe.held.append(ch)
+            do(f"hold {rcv_role} {hx(ch)}", rcv)
+        elif not lost_called:
             try:
                 rcv.conn.dataReceived(ch)
             except Exception as e:
                 exc = type(e).__name__
                 excs.append(exc)
-            fed += ch
+            rcv.pipe.fed += ch
             do(f"data {rcv_role} {hx(ch)}", rcv, exc)
         for a in app.get(ci, []):
             app_action(a)
@@ -704,7 +746,9 @@ def run_case(case):
     if surfaced != sent[:len(surfaced)]:
         viol.append(("not-a-prefix", f"records surfaced {short(surfaced)} are not a prefix of the records sent {short(sent)} "
                                      f"(manip={manip}, reflect={reflect})"))
-    # what an honest framing of the bytes actually fed contains
+    # what an honest framing of the bytes actually fed contains (directly or when the transport released what it held)
+    fed = fed + rcv.pipe.fed
+    excs = excs + rcv.pipe.excs
     got_frames = split_frames(fed)
     honest = frames if not reflect else []     # reflected frames are sealed for the other direction: none is honest here
     first_bad = None
@@ -954,6 +998,12 @@ def gen_case(rng, adversarial):
     if rng.random() < 0.2:
         c["late_reads"] = rng.randrange(1, 3)
     c["loss"] = rng.choice(["done", "done", "reset", "none"])
+    if rng.random() < 0.12:
+        c["hold"] = True
+        c["app"] = rand_hold_app(rng)
+        c.pop("late_reads", None)
+        if c["chunk"] in ("all", "one"):
+            c["chunk"] = "aligned"
     return c
 
 
@@ -1081,6 +1131,58 @@ def every_point():
     return out
 
 
+def hold_cases():
+    """a transport that holds bytes while paused and releases them synchronously on resume: records queued, then the
+    reading side pauses, more records pile up in the transport, then a consumer that resumes its producer from
+    registerProducer() is attached (or the application resumes) - with and without tampering"""
+    eight = [[2 + i % 2, 40 + i] for i in range(8)]
+    total = sum(sz for sz, _ in eight)
+    out = []
+    patterns = [
+        # queue 0..k, pause, hold the rest, attach a "ready" consumer for everything / without count / for a part
+        [[1, ["call", [["p"]]]], ["end", ["attachready", total, []]]],
+        [[2, ["call", [["p"]]]], ["end", ["attachready", None, [["r", []]]]]],
+        [[0, ["call", [["p"]]]], [4, ["attachready", 7, [["r", [["r", []]]]]]], ["end", ["resume"]]],
+        # a read outstanding, pause, hold, ready consumer (the held records go to the read first)
+        [[-1, ["call", [["r", []]]]], [-1, ["call", [["p"]]]], [3, ["attachready", 5, []]], ["end", ["resume"]]],
+        # the application itself resumes; pause again; resume again
+        [[1, ["call", [["p"]]]], [3, ["resume"]], [4, ["call", [["p"]]]], ["end", ["resume"]], ["end", ["call", [["r", [["r", []]]]]]]],
+        # a flow-controlled consumer pauses in write(); the rest is held until somebody resumes
+        [[-1, ["call", [["c", None, "fc", []]]]], [2, ["resume"]], ["end", ["resume"]]],
+        # attach "ready" twice (RuntimeError), expected = 0
+        [[1, ["call", [["p"]]]], [2, ["attachready", None, []]], [3, ["attachready", 3, []]], ["end", ["resume"]]],
+        [[1, ["call", [["p"]]]], ["end", ["attachready", 0, [["r", []]]]], ["end", ["resume"]]],
+    ]
+    for app in patterns:
+        for m in (None, None, ["flip", 5, 30, 1], ["delete", 4], ["dup", 3], ["swap", 5], ["trunc", 200]):
+            for ch in ("aligned", "every:61"):
+                out.append(dict(kind="stream", dir="S" if len(out) % 2 else "R", recs=eight, chunk=ch, manip=m,
+                                app=app + [["end", ["lost"]]], hold=True, loss=["done", "reset", "none"][len(out) % 3]))
+    return out
+
+
+def rand_hold_app(rng):
+    """top-level pauses / resumes / "ready" consumers only (callbacks may pause, never resume): the holding transport
+    re-enters dataReceived from resumeProducing(), which the model covers where the connection is otherwise idle"""
+    acts = []
+    pos = lambda: rng.choice([-1, 0, 1, 2, 3, 4, 5, "end"])  # noqa: E731
+    if rng.random() < 0.4:
+        acts.append([-1, ["call", [["r", [["p"]] if rng.random() < 0.5 else []] for _ in range(rng.randrange(1, 3))]]])
+    for _ in range(rng.randrange(1, 4)):
+        acts.append([pos(), ["call", [["p"]]]])
+    for _ in range(rng.randrange(0, 3)):
+        acts.append([pos(), ["resume"]])
+    for _ in range(rng.randrange(1, 3)):
+        kids = [chain(rng.randrange(0, 2))] if rng.random() < 0.5 else []
+        acts.append([pos(), ["attachready", rng.choice([None, 0, 3, 8, 20, 100]), kids]])
+    if rng.random() < 0.3:
+        acts.append([pos(), ["call", [["c", rng.choice([None, 6]), "fc", []]]]])
+    acts.append(["end", ["resume"]])
+    if rng.random() < 0.5:
+        acts.append(["end", ["call", [chain(2)]]])
+    return acts
+
+
 BACKLOG_COUNTS = [1, 2, 1023, 1024, 1025, 1500, 3000]
 
 
@@ -1128,7 +1230,7 @@ def rng_free_chunk(p):
 
 
 def cases(rng, tier):
-    out = corpus() + backlog_cases()
+    out = corpus() + hold_cases() + backlog_cases()
     n = 1 if tier == "quick" else 25
     for _ in range(140 * n):
         out.append(gen_case(rng, adversarial=False))
@@ -1156,7 +1258,7 @@ def search(rng, seconds, seeds):
     t0 = time.time()
     for c in seeds:
         yield c, run_case(c)
-    for c in corpus() + backlog_cases() + every_cut() + every_point():
+    for c in corpus() + hold_cases() + backlog_cases() + every_cut() + every_point():
         yield c, run_case(c)
         if time.time() - t0 > seconds:
             return
